@@ -1,1 +1,57 @@
-fn main() { println!("vh"); }
+use serde_json::{json, Value};
+use std::io::Write;
+use vh::util::*;
+
+fn usage() -> ! {
+    eprintln!("usage: vh replay <module> <tlc-output> | vh record <module> <seed> <runs> <ops> <out.ndjson>");
+    std::process::exit(2)
+}
+
+fn load_cases(path: &str) -> Vec<Value> {
+    if path.ends_with(".ndjson") { read_ndjson(path) } else { read_tagged(path, "REPLAY") }
+}
+
+fn main() {
+    std::panic::set_hook(Box::new(|_| {}));
+    let args: Vec<String> = std::env::args().collect();
+    if args.len() < 3 { usage() }
+    match (args[1].as_str(), args[2].as_str()) {
+        ("replay", "erralg") => {
+            let cx = vh::erralg::Ctx::new();
+            let cases = load_cases(&args[3]);
+            let mut prop: Vec<Value> = vec![];
+            let mut model: Vec<Value> = vec![];
+            let mut nprop = 0usize;
+            let mut nmodel = 0usize;
+            for c in &cases {
+                let o = vh::erralg::replay_one(&cx, c);
+                if !o.prop.is_empty() {
+                    nprop += 1;
+                    if prop.len() < 20 { prop.push(json!({"case": c, "why": o.prop})); }
+                }
+                if !o.model.is_empty() {
+                    nmodel += 1;
+                    if model.len() < 5 { model.push(json!({"case": c, "why": o.model})); }
+                }
+            }
+            let samples: Vec<&Value> = cases.iter().step_by((cases.len() / 3).max(1)).take(3).collect();
+            println!("{}", json!({"cases": cases.len(), "prop_mismatch": nprop, "model_drift": nmodel,
+                                   "prop": prop, "model": model, "samples": samples}));
+        }
+        ("record", "erralg") => {
+            let seed: u64 = args[3].parse().unwrap();
+            let runs: usize = args[4].parse().unwrap();
+            let ops: usize = args[5].parse().unwrap();
+            let cx = vh::erralg::Ctx::new();
+            let mut rng = Rng::new(seed);
+            let mut ev = vec![];
+            for _ in 0..runs {
+                vh::erralg::record(&cx, &mut rng, ops, 6, 12, &mut ev);
+            }
+            let mut f = std::io::BufWriter::new(std::fs::File::create(&args[6]).unwrap());
+            for e in &ev { writeln!(f, "{}", e).unwrap(); }
+            println!("{}", json!({"events": ev.len(), "runs": runs}));
+        }
+        _ => usage(),
+    }
+}
